@@ -185,3 +185,26 @@ let mk_env (bvs : (char list * n * n) list) (arrs : arr_entry list) : env =
         match List.find_opt (fun a -> a.a_name = nm && a.a_iw = iw && a.a_dw = dw) arrs with
         | Some a -> arr_fun a.a_default a.a_entries
         | None -> fun _ -> N0) }
+
+(* transition systems:
+   (sys (inputs E..) (states (state SYM (init E)? (next E)?)..) (outputs ("name" E)..) (bads E..) (constraints E..)) *)
+let sys_of_sexp (x : Sexp.t) : sys =
+  let fs = match x with Sexp.List (Sexp.Atom "sys" :: fs) -> fs | _ -> raise (Sexp.Parse_error "sys") in
+  let exprs k = List.map expr_of_sexp (match Sexp.field_opt k fs with Some l -> l | None -> []) in
+  let states = List.map (function
+      | Sexp.List (Sexp.Atom "state" :: sym :: rest) ->
+          let opt k = match Sexp.field_opt k rest with Some [e] -> Some (expr_of_sexp e) | _ -> None in
+          { st_sym = expr_of_sexp sym; st_init = opt "init"; st_next = opt "next" }
+      | s -> raise (Sexp.Parse_error ("bad state " ^ Sexp.to_string s)))
+      (match Sexp.field_opt "states" fs with Some l -> l | None -> []) in
+  let outputs = List.map (function
+      | Sexp.List [n; e] -> (name n, expr_of_sexp e)
+      | s -> raise (Sexp.Parse_error ("bad output " ^ Sexp.to_string s)))
+      (match Sexp.field_opt "outputs" fs with Some l -> l | None -> []) in
+  { s_inputs = exprs "inputs"; s_states = states; s_outputs = outputs; s_bads = exprs "bads"; s_constraints = exprs "constraints" }
+
+(* generic case header: (case ID field...) *)
+let case_fields (x : Sexp.t) : string * Sexp.t list =
+  match x with
+  | Sexp.List (Sexp.Atom "case" :: id :: rest) -> (Sexp.atom id, rest)
+  | _ -> raise (Sexp.Parse_error "expected (case ID ...)")
